@@ -179,7 +179,9 @@ def seeds(R, rng, tier):
     fmts = ["json", "yaml", "csv", "xml", "sarif"]
     seeds_ = ["0", "1", "2", "3", "4"] if tier == "quick" else ["0", "1", "2", "3", "4", "5", "6", "7", "8", "9", "10", "11"]
     runs = [(fmt, []) for fmt in fmts] + [("json", ["-t", "B602,B603,B607,B609,B501,B113,B605,B103,B108,B106,B324"]),
-                                          ("json", ["-s", "B101,B404"]), ("csv", ["-t", "B607,B602,B113,B501"])]
+                                          ("json", ["-s", "B101,B404"]), ("csv", ["-t", "B607,B602,B113,B501"]),
+                                          # one file reached under two spellings (explicitly and by the walk), a file given twice
+                                          ("json", ["pkg/zz_multi.py"]), ("csv", ["./pkg/zz_multi.py", "pkg/zz_multi.py"]), ("yaml", ["pkg/sub"])]
     for fmt, sel in runs:
         outs = {}
         for s in seeds_:
